@@ -130,6 +130,19 @@ theorem documentLink_ranges_valid (vfs : List (String × String)) (rootPath : St
   obtain ⟨res, hres, hr⟩ := documentLinkExec_ok hwf hf
   exact ⟨res, hres, fun e he => ⟨(hr e he).1, hf, (hr e he).2.2.2 (htriv file)⟩⟩
 
+/-- folding ranges and document links, without hypotheses: the workspace is built
+(`C03.buildWorkspace_total`) and the ranges are valid ranges of the requested file -/
+theorem foldingRange_documentLink_ranges_valid_all (vfs : List (String × String)) (rootPath : String)
+    (includeDir : Option String) :
+    ∃ ws, buildWorkspace vfs rootPath includeDir = .ok ws ∧ ∀ file, file < ws.files.size →
+      (∃ res, foldingRangeExec (Analysis.new ws) file = .ok (some res) ∧
+        ∀ rg ∈ res, LocValid ws file rg.1 rg.2) ∧
+      (∃ res, documentLinkExec (Analysis.new ws) file = .ok (some res) ∧
+        ∀ e ∈ res, e.2 < ws.files.size ∧ LocValid ws file e.1.1 e.1.2) := by
+  obtain ⟨ws, hb⟩ := C03.buildWorkspace_total vfs rootPath includeDir
+  exact ⟨ws, hb, fun file hf => ⟨foldingRange_ranges_valid vfs rootPath includeDir ws hb file hf,
+    documentLink_ranges_valid vfs rootPath includeDir ws hb file hf⟩⟩
+
 /-- **document symbols: every symbol and every (transitive) child range is a valid range of the
 requested file.**  Behind it is the invariant `SymMap.FilesOK` of the indexer: a symbol in the
 per-file list of `f` is defined in `f`; the `def`s of a defset are written in the defset's file
